@@ -573,6 +573,10 @@ func lines(r *rand.Rand, n, maxPlies int, visit func(start string, moves []strin
 	}
 }
 
+// corpusRejected collects corpus FENs that fen.Decode refused while a generator ran; main turns each into a "fen dec" op,
+// so that the run reports the string as a concrete disagreement with the model instead of dying in the generator.
+var corpusRejected []string
+
 // walk visits positions: corpus, playouts from corpus positions, synthetic positions and short
 // playouts from them. visit gets (fen with clocks, position, turn).
 func walk(r *rand.Rand, playouts, maxPlies, synth int, visit func(f string, p *board.Position, turn board.Color)) {
@@ -589,7 +593,9 @@ func walk(r *rand.Rand, playouts, maxPlies, synth int, visit func(f string, p *b
 	play := func(start string, plies int, every int) {
 		p, turn, np, fm, err := fen.Decode(start)
 		if err != nil {
-			panic("corpus fen rejected: " + start)
+			// a standard FEN of the corpus that the decoder no longer accepts: reported as an op of its own (see main)
+			corpusRejected = append(corpusRejected, start)
+			return
 		}
 		emit(p, turn, np, fm)
 		for i := 0; i < plies; i++ {
